@@ -4,6 +4,8 @@ import (
 	"fmt"
 	"reflect"
 
+	cose "github.com/veraison/go-cose"
+
 	"verif/tape"
 )
 
@@ -13,7 +15,7 @@ func init() {
 		Level: "exploration",
 		Rule: "one run = a server that recycles structs and network buffers: one long-lived destination variable per decoder (Sign1Message, UntaggedSign1Message, SignMessage, Signature, Countersignature, ProtectedHeader, UnprotectedHeader), three reusable buffers, " +
 			"a pool of byte strings (valid messages of every kind with nested countersignatures, stand-alone objects and buckets, damaged variants, other kinds' encodings, truncations) and a tape-chosen history of <= 16 operations LOAD(buffer <- bytes), DECODE(destination <- buffer), " +
-			"SCRIBBLE(buffer or an earlier encoder output), ENCODE(destination -> new output). Reference model per destination: the value obtained by decoding a pristine private copy of the last successfully decoded bytes into a fresh variable (zero value if none). " +
+			"SCRIBBLE(buffer or an earlier encoder output), ENCODE(destination -> new output), MUTATE(the application edits one decoded copy: no other destination, and no later decode of the same bytes, may be affected). Reference model per destination: the value obtained by decoding a pristine private copy of the last successfully decoded bytes into a fresh variable (zero value if none). " +
 			"After every operation each destination's deep snapshot must equal the model's; after a failing DECODE it must also equal the snapshot taken just before; no byte slice reachable from a destination may point into a harness buffer or an earlier output (checked on addresses, independent of the scribble pattern). " +
 			"Non-trivial = at least one successful and one further decode into the same destination, or a scribble after a decode; distinct = distinct (operation kinds, decoders, outcomes) sequence.",
 		Assumptions: []string{"deep snapshots (types, nil vs empty, map contents, pointer graph) are what a reader can observe of a value"},
@@ -29,6 +31,8 @@ type c19Dest struct {
 	model    []byte // pristine copy of the last successfully decoded bytes (nil: none yet)
 	decodes  int
 	failures int
+	good     string // snapshot taken right after the last successful decode
+	dirty    bool   // the application has edited its decoded copy since
 }
 
 type addrRange struct {
@@ -182,7 +186,22 @@ func scenarioC19(r *Run) {
 					return false
 				}
 			}
+			if d.dirty {
+				// the application edited this copy itself; it is judged again
+				// after its next successful decode
+				continue
+			}
 			got, exp := Snapshot(d.val), Snapshot(want)
+			if d.model != nil && exp != d.good {
+				r.Fail("decode-depends-on-history/"+d.dec.Name+"/after-"+opClass(after),
+					"decoding the same bytes into a fresh variable gives another value now than it gave before (after %s)\n%s\ninput: %s", after, diffSnapshot(d.good, exp), hexShort(d.model))
+				return false
+			}
+			if d.model != nil && got != d.good {
+				r.Fail("decoded-value-changed-behind-its-back/"+d.dec.Name+"/after-"+opClass(after),
+					"after %s the %s destination differs from what it held right after its own decode, although nothing operated on it\n%s", after, d.dec.Name, diffSnapshot(d.good, got))
+				return false
+			}
 			if got != exp {
 				r.Fail("destination-differs-from-fresh-decode/"+d.dec.Name+"/after-"+opClass(after),
 					"after %s the long-lived %s destination (decodes so far: %d ok, %d failed) differs from decoding its last good input into a fresh variable\n%s\nlast good input: %s",
@@ -199,7 +218,7 @@ func scenarioC19(r *Run) {
 	nops := 4 + t.Choose(13, "c19.nops")
 	interesting := false
 	for op := 0; op < nops; op++ {
-		switch t.Pick([]int{3, 6, 3, 2}, "c19.op") {
+		switch t.Pick([]int{3, 6, 3, 2, 2}, "c19.op") {
 		case 0: // LOAD
 			bi := t.Choose(3, "c19.buf")
 			item := pool[t.Choose(len(pool), "c19.src")]
@@ -249,6 +268,7 @@ func scenarioC19(r *Run) {
 				}
 				d.decodes++
 				d.model = pristine
+				d.good, d.dirty = Snapshot(d.val), false
 			} else {
 				if d.decodes > 0 {
 					interesting = true
@@ -290,6 +310,26 @@ func scenarioC19(r *Run) {
 			if !checkAll("SCRIBBLE") {
 				return
 			}
+		case 4: // MUTATE: the application edits ITS decoded copy
+			var cands []*c19Dest
+			for _, d := range dests {
+				if d.decodes > 0 && !d.dirty {
+					cands = append(cands, d)
+				}
+			}
+			if len(cands) == 0 {
+				continue
+			}
+			d := cands[t.Choose(len(cands), "c19.mutate.dest")]
+			if c19Mutate(t, d.val) {
+				d.dirty = true
+				interesting = true
+				r.Op("MUTATE", "%s (application edits its decoded copy)", d.dec.Name)
+				r.Fired("app.mutates-decoded-copy")
+				if !checkAll("MUTATE") {
+					return
+				}
+			}
 		default: // ENCODE
 			d := dests[t.Choose(len(dests), "c19.dest")]
 			var out []byte
@@ -313,3 +353,74 @@ func scenarioC19(r *Run) {
 func opClass(s string) string { return s }
 
 var _ = tape.Mix
+
+// c19Mutate edits a decoded value in place the way an application may (it owns
+// its copy): drops and adds header entries, flips payload/signature bytes.
+func c19Mutate(t *tape.Tape, v any) bool {
+	editHeaders := func(h *cose.Headers) {
+		for k := range h.Protected { // all of them: no choice may depend on map order
+			delete(h.Protected, k)
+		}
+		if h.Protected != nil {
+			h.Protected["verif-edit"] = int64(1)
+		}
+		for k := range h.Unprotected {
+			delete(h.Unprotected, k)
+		}
+		if h.Unprotected != nil {
+			h.Unprotected[int64(99999)] = []byte("edited")
+		}
+		for i := range h.RawProtected {
+			h.RawProtected[i] ^= 0x01
+		}
+	}
+	flip := func(b []byte) {
+		for i := range b {
+			b[i] ^= 0x80
+		}
+	}
+	switch m := v.(type) {
+	case *cose.Sign1Message:
+		editHeaders(&m.Headers)
+		flip(m.Payload)
+		flip(m.Signature)
+	case *cose.UntaggedSign1Message:
+		editHeaders(&m.Headers)
+		flip(m.Payload)
+		flip(m.Signature)
+	case *cose.SignMessage:
+		editHeaders(&m.Headers)
+		flip(m.Payload)
+		for _, s := range m.Signatures {
+			if s != nil {
+				editHeaders(&s.Headers)
+				flip(s.Signature)
+			}
+		}
+	case *cose.Signature:
+		editHeaders(&m.Headers)
+		flip(m.Signature)
+	case *cose.Countersignature:
+		editHeaders(&m.Headers)
+		flip(m.Signature)
+	case *cose.ProtectedHeader:
+		if *m == nil {
+			return false
+		}
+		for k := range *m {
+			delete(*m, k)
+		}
+		(*m)["verif-edit"] = int64(1)
+	case *cose.UnprotectedHeader:
+		if *m == nil {
+			return false
+		}
+		for k := range *m {
+			delete(*m, k)
+		}
+		(*m)[int64(99999)] = []byte("edited")
+	default:
+		return false
+	}
+	return true
+}
